@@ -241,6 +241,21 @@ def run(pid, tier, rule_text, assumptions, bits="few"):
             raise vlib.ToolError(f"{label}: replayed {summ['edges']} of {res['counts']['EDGE']} simulated edges")
         for k, v in summ.items():
             tot[k] = tot.get(k, 0) + v
+    # regression: the TLC edges that witnessed the (fixed) findings of this property are replayed verbatim, all profiles
+    wdir = os.path.join(vlib.SPEC, "witness")
+    for f in sorted(os.listdir(wdir)) if os.path.isdir(wdir) else []:
+        if not f.startswith(f"KF-{pid}-"):
+            continue
+        with open(os.path.join(wdir, f)) as fh:
+            w = json.load(fh)
+        ep = os.path.join(ck.dir, "witness_one.ndjson")
+        vlib.write_ndjson(ep, [w["case"]])
+        rows, summ = replay_edges(ck, ep, "witness", shards=1, bits=bits, extra=["--lineno", str(w.get("edge", 0))])
+        classify(ck, pid, rows, "witness/" + w["id"])
+        _rm(ep)
+        total_edges += summ["edges"]
+        for k, v in summ.items():
+            tot[k] = tot.get(k, 0) + v
     ck.cov["traces_validated_against_impl"] = total_edges
     ck.cov["evaluations"] = tot.get("evaluations", 0)
     ck.cov["distinct_nontrivial"] = total_nt
